@@ -163,27 +163,33 @@ class HeaderTxHarness(Harness):
         in_pkt = Signal(name="in_pkt")            # a header is on the wire / offered
         m.d.comb += in_pkt.eq(src.valid | (widx != 0))
 
-        retx_started = Signal(name="g_retx_started")
+        # whether the header on the wire is a retransmission is decided when its HPSTART is first offered: a header
+        # handed to the raw transmitter before the retry became effective completes as a first transmission
+        prev_offer = Signal(name="g_prev_offer")
+        offer_start = Signal(name="g_offer_start")
+        cur_is_retx = Signal(name="g_cur_is_retx")
+        m.d.comb += offer_start.eq(src.valid & (widx == 0) & ~prev_offer)
+        m.d.ss += prev_offer.eq(src.valid & (widx == 0) & ~self.ready)
+        with m.If(offer_start):
+            m.d.ss += cur_is_retx.eq(retx_active & ~retry_wait)
         retx_hit = Signal(name="g_retx_hit")       # this header is the expected retransmission
-        late_first = Signal(name="g_late_first")   # committed before the retry became effective, completes first
         first_tx = Signal(name="first_tx")         # first transmission of a header (counts g_tx)
         m.d.comb += [
-            late_first.eq(ev_hdr & retx_active & ~retx_started & (w_seq == g_tx) & (w_seq != retx_ptr) & (n_untx != 0)),
-            retx_hit.eq(ev_hdr & retx_active & ~retry_wait & ~late_first),
-            first_tx.eq(ev_hdr & (~retx_active | late_first | (retry_wait & retx_active) | (retx_hit & (retx_ptr == g_tx) & (n_untx != 0)))),
+            retx_hit.eq(ev_hdr & cur_is_retx & retx_active),
+            first_tx.eq(ev_hdr & (~retx_hit | ((retx_ptr == g_tx) & (n_untx != 0)))),
         ]
         with m.If(first_tx):
             m.d.ss += [g_tx.eq(g_tx + 1), n_sent.eq(n_sent + 1)]
         m.d.ss += n_untx.eq(n_untx + acc - first_tx)
         m.d.ss += n_out.eq(n_out + acc - retire)
         with m.If(retx_hit):
-            m.d.ss += [retx_ptr.eq(retx_ptr + 1), retx_left.eq(retx_left - 1), retx_started.eq(1)]
+            m.d.ss += [retx_ptr.eq(retx_ptr + 1), retx_left.eq(retx_left - 1)]
             with m.If(retx_left == 1):
                 m.d.ss += retx_active.eq(0)
 
         # retry bookkeeping: an LBAD asks for every header accepted and not yet acknowledged, oldest first
         with m.If(is_lbad & (n_out != 0)):
-            m.d.ss += [retx_active.eq(1), retx_started.eq(0), retx_ptr.eq(g_ack), retx_left.eq(n_out), retry_wait.eq(1)]
+            m.d.ss += [retx_active.eq(1), retx_ptr.eq(g_ack), retx_left.eq(n_out), retry_wait.eq(1)]
         with m.Elif(self.lrty_sent):
             m.d.ss += retry_wait.eq(0)
         in_retry = Signal(name="in_retry")
